@@ -12,3 +12,36 @@ package dag
 //@   modifies ghost eff.exec, ghost eff.condfail
 //@   ensures err != nil ==> eff.condfail == old(eff.condfail) + 1
 //@   ensures err == nil ==> eff.condfail == old(eff.condfail)
+
+// Output variables of a run live in a sync.Map shared by all steps; the ghost triple records the last Store.
+//@ ghost outvar.stores int
+//@ ghost outvar.key any
+//@ ghost outvar.val any
+
+//@ fn GetContext(ctx) (c, err)
+//@   props C02 C11
+//@   trusted
+//@   noeffect
+//@ fn (Context).WithEnv(c, env) (r)
+//@   props C11
+//@   trusted
+//@   modifies heap(alloc)
+//@ fn WithDagContext(ctx, dagContext) (r)
+//@   props C11
+//@   trusted
+//@   noeffect
+//@ fn NewContext(ctx, dag, finder, requestID, logFile) (r)
+//@   props C11
+//@   trusted
+//@   noeffect
+
+// Loading a definition for the scheduler daemon / listing: the ghost pair records the last outcome.
+//@ ghost obs.meta_calls int
+//@ ghost obs.meta_err error
+//@ ghost obs.meta_dag *DAG
+//@ fn LoadMetadata(dag) (d, err)
+//@   props C09 C19
+//@   trusted
+//@   modifies heap(alloc), ghost obs.meta_calls, ghost obs.meta_err, ghost obs.meta_dag
+//@   ensures obs.meta_calls == old(obs.meta_calls) + 1 && obs.meta_err == err && obs.meta_dag == d
+//@   ensures err == nil ==> d != nil
